@@ -194,6 +194,16 @@ pub fn parse_pipeline(def: &ast::PipelineDefinition, context: &mut Context) -> T
         assert!(gpo.depth_target_format.is_none());
     }
 
+    // Pipelines are selected by name so the name must be unique
+    if context
+        .module
+        .pipelines
+        .iter()
+        .any(|p| p.name.node == pipeline.name.node)
+    {
+        return Err(TyperError::PipelineDuplicate(pipeline.name.location));
+    }
+
     context.module.pipelines.push(pipeline);
 
     Ok(())
